@@ -22,6 +22,9 @@ Values returned by user callables are not decided.
 
 Round 5: (k) Packet.unpack hands the drivers the caller's data and offset unchanged; (l) a
 positioning pseudo-field never joins a struct block (no struct code outside Int / Data).
+
+Round 6: (m) only Move.pack and the per-element pad of Sequence.pack set the cursor; an element
+packed without the pad; class-wide align rules decided on paths.
 """
 import ast
 import copy
